@@ -52,6 +52,8 @@ func Nontrivial(prop string, r *RunResult) bool {
 		return p["op-Create"]+p["op-Drop"]+p["op-Clear"]+p["op-IndexCreate"]+p["op-IndexDrop"] >= 2
 	case "C19":
 		return p["op-BatchWrite"]+p["op-BatchGet"] >= 1
+	case "C11":
+		return r.Faults["context-switches"] >= 3 && p["ops"] >= 4
 	}
 	return r.NSteps > 2
 }
@@ -73,6 +75,12 @@ func RuleText(prop string) string {
 		"C18": "non-trivial = at least two table lifecycle commands",
 		"C19": "non-trivial = at least one batch call executed",
 	}
+	if prop == "C11" {
+		return "one case = one seeded concurrent run: a set-up prefix, then 2-4 real goroutines each executing 1-4 commands against one shared client of the instrumented library, parked and released one at a time at lock operations and instrumented statements by the simulator's scheduler (non-pre-emptive random, PCT with 1-3 pre-emption points, or random switching with period 2..512, drawn per run); then an observer reads every table. Checked: porcupine linearizability of the recorded history (batches as per-request operations) against the reference model, deadlock / leaked lock / overrun detection, vector-clock data-race detection over instrumented field accesses of Client, Table, index, Native, Language, keySchema. distinct = distinct (set-up, task lists, context-switch signature); non-trivial = at least 4 operations and at least 3 context switches."
+	}
 	excl := " Not generated (outside the statements, DESIGN.md 3.4): index creation under an existing name, duplicate keys in one batch, table names shorter than 3 characters, queries naming a missing index, expression forms outside appendix A."
 	return common + nt[prop] + "." + excl
 }
+
+// RuleTextC11 is a no-op hook kept for symmetry.
+func RuleTextC11() {}
